@@ -15,7 +15,11 @@ RELATED = {"C01": ["C12", "C14", "C04", "C11"], "C02": ["C01"], "C04": ["C01", "
            "C40": ["C19"], "C41": []}
 args = sys.argv[1:]
 suite = "--no-suite" not in args
-args = [a for a in args if a != "--no-suite"]
+own_only = "--own-only" in args          # run the property's own check, plus only the neighbour known to be the one that reports it
+skip_done = "--skip-done" in args        # skip seeds whose meta.json was already written by this version against the current HEAD
+args = [a for a in args if a not in ("--no-suite", "--own-only", "--skip-done")]
+SPECIAL = {"C01-2": ["C04", "C11"], "C08-2": ["C34"], "C25-2": ["C28"], "C12-2": ["C06"]}
+HEAD = subprocess.check_output(["git", "-C", "/repo", "rev-parse", "--short", "HEAD"], text=True).strip()
 src = args[0]
 ids = args[1:] or sorted(os.listdir(src))
 reg = set(json.load(open(f"{VERIF}/MANIFEST.json"))["checks"][i]["property_id"] for i in range(len(json.load(open(f"{VERIF}/MANIFEST.json"))["checks"])))
@@ -26,6 +30,11 @@ for pid in ids:
             continue
         out = os.path.join(VERIF, "seeded", f"{pid}-{n}")
         os.makedirs(out, exist_ok=True)
+        if skip_done and os.path.exists(os.path.join(out, "meta.json")):
+            old = json.load(open(os.path.join(out, "meta.json")))
+            if old.get("repo_head") == HEAD and "what_it_needs_to_manifest" in old:
+                print(f"{pid}-{n}: already evaluated against {HEAD}", flush=True)
+                continue
         shutil.copy(patch, os.path.join(out, "patch.diff"))
         if os.path.exists(demo):
             shutil.copy(demo, os.path.join(out, "demo.py"))
@@ -65,7 +74,7 @@ for pid in ids:
                 p = subprocess.run([f"{VERIF}/tools/native_suite.py", wt], capture_output=True, text=True)
                 meta["native_suite"] = p.stdout.strip().splitlines()[0] if p.stdout.strip() else p.stderr[-200:]
                 meta["ran"].append("tools/native_suite.py <worktree with patch> -> " + meta["native_suite"])
-            for c in [pid] + RELATED.get(pid, []):
+            for c in [pid] + (SPECIAL.get(f"{pid}-{n}", []) if own_only else RELATED.get(pid, [])):
                 if c not in reg:
                     meta["checks"][c] = "not-registered"; continue
                 p = subprocess.run(["/venv/bin/python", "-m", "mc.run", c, "--tier", "quick", "--no-evidence"], cwd=VERIF,
